@@ -6,6 +6,50 @@ import os
 V = os.path.dirname(os.path.dirname(os.path.abspath(__file__)))
 
 CHECKS = {
+    "C13": dict(
+        engine="E1-enumerator",
+        category="exploration",
+        text="Real ApplicationHelp / CommandHelp / ConsoleApplication.run on generated configurations: one command x every valid sequence of 0-2 arguments x every "
+             "multiset of 0-2 options from catalogues of 13 argument and 14 option kinds (every flag kind, description None/short/long, defaults of every type, an "
+             "argument named like a style tag) (thorough: 3 of either); global options/arguments; parent/child inheritance; all command trees of <= 3 nodes "
+             "(thorough 4) x 7 marks per node (plain, aliased, default, anonymous, hidden, disabled, hidden+default); widths {minimum, +1, 40, 41, 50, 60, 79, 80, 81, "
+             "100, 120, 200, 1 rotated} (thorough: every width 40..200) x ANSI/plain. Oracle known by construction: no failure; every enabled non-hidden named "
+             "(sub-)command, every own/inherited/global argument <name> and option --long and -s present; hidden/disabled names absent; every line <= width for "
+             "width >= longest label + 10; 'help <path>' == '<path> --help' == '<path> -h'.",
+        design_ref="2/C13",
+        note="Trusted: the generator's own model of the configuration, whole-token search after SGR stripping. Not demanded: a hidden default sub-command in the USAGE "
+             "synopsis, grandchildren, position on the page, anything below the minimum width.",
+        technique="bounded-exhaustive enumeration of help configurations x widths on the implementation with a by-construction oracle",
+    ),
+    "C14": dict(
+        engine="E1-enumerator",
+        category="exploration",
+        text="Real Table.render on complete products: every column-kind vector over 8 cell kinds (empty, 1 char, words, 40/300-char sentences, 30-char word, tagged) "
+             "for 1-3 columns (thorough 4) x 1-3 rows with a deviating row x header on/off x 4 styles x indentation x alignment vectors x ANSI/plain x widths at "
+             "every branch point of that table's width distribution (minimum, +1, +2, both sides of every short/long split change and of the fit width, 40, 80, "
+             "200, 1 rotated; thorough: every width from the minimum to the fit width). Oracle from the rendered text only: no exception; every line <= terminal; "
+             "bordered styles: equal line widths, separators in identical columns; every style: cells' visible characters recovered per column top to bottom; "
+             "rows deep-equal before/after; second render identical.",
+        design_ref="2/C14",
+        note="Trusted: the text-recovery oracle in props/c14.py. Minimum width = indentation + 4n+1 (bordered) / 2n-1 (borderless). One known finding "
+             "(markup-shown:tagged-cell: tag cut by wrapping) is listed narrowly; other markup signatures still fail the check.",
+        technique="bounded-exhaustive enumeration of tables x styles x widths on the implementation with an output-only rectangle/text-recovery oracle",
+    ),
+    "C17": dict(
+        engine="E2-explicit-state",
+        category="model_checking",
+        text="History exploration by process forking: every sequence of <= 3 (thorough 4; 5 on a reduced alphabet) of 15(+1 rotated) command lines (valid, invalid "
+             "option, surplus arguments, help, help <cmd>, <cmd> -h, -V, unknown command, lenient command, raising handler at -vvv, ...) on ONE application object in "
+             "3 modes (default parsers, one shared parser, the caller re-passing the same RawArgs object); each tree edge is a fork() that executes one more run on "
+             "the inherited live process state; per run (status, stdout, stderr, handler record incl. parsed args and IO settings, raw tokens afterwards) must equal a "
+             "fresh application in a fresh process. Components: 41 factories rendered over all sequences of IO kinds (<= 3/4) on one object, twice on one IO, all "
+             "ordered pairs in one process; BlockLayout reuse; all 24 construction orders x 2 schedules of the 4 table styles in fresh sub-processes plus 648 "
+             "customise/creation scenarios against their un-customised twins.",
+        design_ref="2/C17",
+        note="Trusted: fork() as exact state copy; references computed in pristine children; minimal violating sequences are re-executed before being reported. No "
+             "dedup (no sound fingerprint of an application), so depth is the bound.",
+        technique="explicit exploration of run histories on the implementation (fork-based state tree, differential oracle against fresh instances)",
+    ),
     "C03": dict(
         engine="E1-enumerator",
         category="exploration",
